@@ -22,11 +22,14 @@ Definition upstream_sum (ds : list nat) (data : list Z) (nodata : Z) : list Z :=
 
 (* core.fillnodata_downstream: how = 0 min, 1 max, 2 sum *)
 Definition merge (how : Z) (a b : Z) : Z := if how =? 0 then Z.min a b else if how =? 1 then Z.max a b else a + b.
-Definition fdown_g (ds : list nat) (data : list Z) (nodata how : Z) (i : nat) (acc own : Z) : Z :=
-  if (nth (dsf ds i) data 0 =? nodata) && negb (own =? nodata)
-  then (if acc =? nodata then own else merge how own acc) else acc.
+(* every cell carries (value, holds a value): a merged value may itself equal the nodata value *)
+Definition fdown_g (ds : list nat) (data : list Z) (nodata how : Z) (i : nat) (acc own : Z * bool) : Z * bool :=
+  if (nth (dsf ds i) data 0 =? nodata) && snd own
+  then (if snd acc then (merge how (fst own) (fst acc), true) else (fst own, true)) else acc.
+Definition fill_pairs (ds : list nat) (sq : list nat) (data : list Z) (nodata how : Z) : list (Z * bool) :=
+  sweep_up ds (0, false) (fun _ x => x) (fdown_g ds data nodata how) (rev sq) (map (fun v => (v, negb (v =? nodata))) data).
 Definition fillnodata_downstream (ds : list nat) (sq : list nat) (data : list Z) (nodata how : Z) : list Z :=
-  sweep_up ds 0 (fun _ x => x) (fdown_g ds data nodata how) (rev sq) data.
+  map fst (fill_pairs ds sq data nodata how).
 
 (* core._window as a list, upstream-most cell first; main = idxs_us_main with size = none *)
 Fixpoint window_down (ds : list nat) (strord : option (list Z)) (so0 : Z) (k : nat) (cur : nat) : list nat :=
